@@ -95,6 +95,10 @@ def generate(rng, npk, nlinks=None, payload="random", max_payload=None, sane_hea
     if rng.random() < 0.3 and nlinks > 1:   # two links on the same stave (differ in fibre bits) for the stave filter
         l, fee = ids[0]
         ids[1] = (ids[1][0], (fee & 0x703F) | (rng.randrange(4) << 8))
+    if rng.random() < 0.3 and nlinks > 2:   # two FEE ids behind one link id, and one FEE id behind two link ids (ids are independent header fields)
+        ids[2] = (ids[0][0], ids[2][1])
+        if nlinks > 3:
+            ids[3] = (ids[3][0], ids[1][1])
     pk = []
     for i in range(npk):
         f = random_fields(rng, sane=sane_headers)
